@@ -91,6 +91,7 @@ func hC04(n, prefix, L2, vlen int) {
 	mB := stateMatches(db2, after, "C04.e2")
 	vAssert(vOr(mA, mB), "C04.recovered-state-is-before-or-after-inflight-op")
 	checkSelfConsistent(db2, after, "C04.e2")
+	vCheckLogInvariant(db2, "C04.e2")
 	cur := observeState(db2, r)
 
 	// epoch 3: acknowledged operations in the recovered session, then process death
@@ -128,3 +129,107 @@ func hC04(n, prefix, L2, vlen int) {
 func H_C04_q()    { hC04(2, 2, 1, 2) }
 func H_C04_tear() { hC04(2, 1, 1, 300) }
 func H_C04_t()    { hC04(2, 2, 2, 2) }
+
+// vCheckLogInvariant: appends must go to the newest segment (recovery replays
+// segments in sequence order, so a record appended to an older segment would be
+// overridden by stale newer ones): at most one segment is unsealed and it has
+// the highest sequence id.
+func vCheckLogInvariant(db *DB, tag string) {
+	var maxSeq uint64
+	open := 0
+	for _, seg := range db.datalog.segments {
+		if seg != nil && seg.sequenceID > maxSeq {
+			maxSeq = seg.sequenceID
+		}
+	}
+	for _, seg := range db.datalog.segments {
+		if seg != nil && !seg.meta.Full {
+			open++
+			vExpect(seg.sequenceID == maxSeq, tag+".unsealed-segment-is-the-newest")
+		}
+	}
+	vExpect(open <= 1, tag+".at-most-one-unsealed-segment")
+	vExpect(db.datalog.maxSequenceID >= maxSeq, tag+".maxSequenceID")
+}
+
+// hC04reuse: the first session compacts segment id 0 away and a rollover
+// re-uses id 0 for the newest segment (physical id order != sequence order);
+// then process death, recovery, acknowledged writes of symbolic size, process
+// death, recovery.
+func hC04reuse(n int) {
+	big, small := 40, 2
+	recBig := 10 + 8 + big
+	dir := "c04r"
+	mk := func() *Options { return smallOpts(fs.Mem, 2, recBig) }
+	db, err := Open(dir, mk())
+	vAssert(err == nil, "C04r.open")
+	if err != nil {
+		return
+	}
+	r := newRef(n, 8)
+	put := func(d *DB, k, vlen int, tag string) {
+		v := vBytes("val", vlen)
+		refApply(r, 0, k, v)
+		vAssert(d.Put(r.keys[k], v) == nil, tag)
+	}
+	put(db, 0, big, "C04r.p1")
+	put(db, 0, big, "C04r.p2") // segment id 0 full, first record dead
+	put(db, 1, big, "C04r.p3") // rollover: id 1 / seq 2
+	cr, err := db.Compact()
+	vAssert(err == nil, "C04r.compact")
+	if cr.CompactedSegments > 0 {
+		vCover("C04r.segment-id-0-compacted-away")
+	}
+	vlen := small
+	if vChoice("vlen", 2) == 1 {
+		vlen = big
+	}
+	put(db, 1, vlen, "C04r.p4")
+	put(db, 0, big, "C04r.p5")
+	reused := false
+	var maxSeq uint64
+	var maxID uint16
+	for _, seg := range db.datalog.segments {
+		if seg != nil && seg.sequenceID > maxSeq {
+			maxSeq, maxID = seg.sequenceID, seg.id
+		}
+	}
+	for _, seg := range db.datalog.segments {
+		if seg != nil && seg.id > maxID {
+			reused = true
+		}
+	}
+	if reused {
+		vCover("C04r.newest-segment-has-lower-id-than-an-older-one")
+	}
+	checkReads(db, r, "C04r.e1")
+	fs.VerifDropHandles()
+	db2, err := Open(dir, mk())
+	vAssert(err == nil, "C04r.recovering-open-succeeds")
+	if err != nil {
+		return
+	}
+	checkReads(db2, r, "C04r.e2")
+	vCheckLogInvariant(db2, "C04r.e2")
+	for step := 0; step < 2; step++ {
+		k := vChoice("k", n)
+		vl := small
+		if vChoice("vlen2", 2) == 1 {
+			vl = big
+		}
+		put(db2, k, vl, "C04r.e2.put")
+	}
+	checkReads(db2, r, "C04r.e2b")
+	fs.VerifDropHandles()
+	db3, err := Open(dir, mk())
+	vAssert(err == nil, "C04r.final-recovering-open-succeeds")
+	if err != nil {
+		return
+	}
+	checkReads(db3, r, "C04r.e3")
+	vCheckLogInvariant(db3, "C04r.e3")
+	checkItems(db3, r, "C04r.e3")
+	vCover("C04r.done")
+}
+
+func H_C04_reuse() { hC04reuse(2) }
